@@ -16,13 +16,15 @@ from cpverif.observe import diff_paths
 RULE = (
     "Programs are import sequences over the 12 modules of the package, each run in one fresh interpreter "
     "(python -S, PYTHONPATH = the tree under test): ALL 12 first imports and ALL 132 ordered pairs "
-    "(exhaustive every run), the README's from-import forms and from-imports of every public class as "
-    "first statement, and Hypothesis-drawn longer permutations (quick 48, thorough 1000+). After the "
+    "(exhaustive every run) in both client spellings ('import chartparse.x' and 'from chartparse import x'), "
+    "the README's from-import forms and from-imports of public classes as first statement, and Hypothesis-drawn longer permutations (quick 48, thorough 1000+). After the "
     "program's own imports the remaining modules are imported in a canonical order, so every program is "
     "a full import order with the given prefix. Oracle: every import succeeds (exception text "
     "captured); the dump of every chartparse module's public names with (type, __module__, "
     "__qualname__) and the identity partition 'which (module, name) pairs are bound to the same "
-    "object' equals the dump of the reference order (chartparse.chart first). Non-trivial iff the "
+    "object' equals the dump of the reference order (chartparse.chart first); and what each from-import "
+    "statement binds in the client's namespace is the same object as when the statement runs after the "
+    "whole package was imported. Non-trivial iff the "
     "program's first module is not chartparse.chart; distinct = distinct statement sequence."
 )
 ASSUMPTIONS = [
@@ -40,10 +42,23 @@ import json, sys, types, typing
 job = json.load(sys.stdin)
 out = {"ok": True}
 done = []
+bound = []
+def _desc(o):
+    if isinstance(o, types.ModuleType):
+        return "module:" + o.__name__
+    return type(o).__name__ + ":" + str(getattr(o, "__module__", None)) + "." + str(getattr(o, "__qualname__", getattr(o, "__name__", None)))
 try:
+    for m in job.get("pre", []):
+        __import__("chartparse." + m)
     for stmt in job["stmts"]:
-        exec(stmt, {})
+        ns = {}
+        exec(stmt, ns)
         done.append(stmt)
+        # what the client's statement bound (for 'import a.b' the top package, for from-imports the names)
+        bound.append(sorted([k, _desc(v)] for k, v in ns.items() if k != "__builtins__"))
+        for k, v in ns.items():
+            if k != "__builtins__" and isinstance(v, types.ModuleType) and v.__name__ == "chartparse":
+                pass
     for m in job["modules"]:
         __import__("chartparse." + m)
 except BaseException as e:
@@ -66,14 +81,15 @@ else:
                 ident.setdefault(id(o), []).append(modname + ":" + n)
     out["names"] = names
     out["partition"] = sorted(sorted(v) for v in ident.values())
+    out["bound"] = bound
 json.dump(out, sys.stdout)
 '''
 
 
-def run_program(stmts, timeout=120):
+def run_program(stmts, timeout=120, pre=()):
     env = {k: v for k, v in os.environ.items() if k not in ("PYTHONPATH",)}
     env.update(PYTHONPATH=core.REPO, PYTHONDONTWRITEBYTECODE="1", PYTHONHASHSEED="0")
-    job = {"stmts": stmts, "modules": MODULES}
+    job = {"stmts": stmts, "modules": MODULES, "pre": list(pre)}
     try:
         p = subprocess.run([sys.executable, "-S", "-c", WORKER_CODE], input=json.dumps(job), text=True,
                            capture_output=True, env=env, timeout=timeout, cwd="/")
@@ -122,6 +138,16 @@ def check_program(ctx: Ctx, case) -> None:
         ctx.fail("same-objects", f"program {stmts}: names are bound to different objects than in the "
                                  f"reference order: only-reference {sorted(a - b)[:3]}, only-program "
                                  f"{sorted(b - a)[:3]}", case)
+    # what each statement hands to the client must not depend on the order either: the same statements
+    # executed after the whole package was imported (chart first) must bind the same objects
+    if any(st_.startswith("from ") for st_ in stmts):
+        late = run_program(stmts, pre=["chart"] + [m for m in MODULES if m != "chart"])
+        if not late.get("ok"):
+            ctx.fail("import-succeeds", f"program {stmts} after importing the whole package: statement "
+                                        f"{late.get('failed_stmt')!r} raised {late['exc'][0]}: {late['exc'][1]}", case)
+        elif late.get("bound") != r.get("bound"):
+            ctx.fail("same-objects", f"program {stmts}: the statements bind {r.get('bound')} when run first but "
+                                     f"{late.get('bound')} after the package was imported", case)
     ctx.note(stmts, nontrivial=first != "chartparse.chart",
              classes=[f"len_{min(len(stmts), 12)}"],
              sample={"stmts": stmts, "public_names": len(r["names"]), "identity_classes": len(r["partition"])})
@@ -130,6 +156,11 @@ def check_program(ctx: Ctx, case) -> None:
 def exhaustive_programs():
     progs = [[f"import chartparse.{m}"] for m in MODULES]
     progs += [[f"import chartparse.{a}", f"import chartparse.{b}"] for a, b in itertools.permutations(MODULES, 2)]
+    # the other client spelling: 'from chartparse import <module>' (all first imports, all ordered pairs)
+    progs += [[f"from chartparse import {m}"] for m in MODULES]
+    progs += [[f"from chartparse import {a}", f"from chartparse import {b}"] for a, b in itertools.permutations(MODULES, 2)]
+    progs += [[f"import chartparse.{a}", f"from chartparse import {b}"] for a, b in itertools.permutations(MODULES, 2)
+              if (MODULES.index(a) + MODULES.index(b)) % 4 == 0]
     progs += [
         ["from chartparse.chart import Chart", "from chartparse.instrument import Instrument, Difficulty"],
         ["from chartparse.instrument import Instrument, Difficulty", "from chartparse.chart import Chart"],
